@@ -280,6 +280,15 @@ def gen(ck):
         add((t, {'bogus': 1}))
         add((t, {'type_byte': 1}))
     add(('end_of_track', {'time': None}))
+    # attribute names that belong to ANOTHER meta type (with a value that is fine there): not attributes of this one
+    sample_vals = {'number': 7, 'text': 'x', 'name': 'x', 'channel': 1, 'port': 1, 'tempo': 1, 'frame_rate': 25, 'hours': 1, 'minutes': 1,
+                   'seconds': 1, 'frames': 1, 'sub_frames': 1, 'numerator': 2, 'denominator': 2, 'clocks_per_click': 1,
+                   'notated_32nd_notes_per_beat': 1, 'key': 'C', 'data': [1]}
+    for t in metas.META_NAMES:
+        own = {a for a, _ in metas.META[t][1]}
+        for a, v in sample_vals.items():
+            if a not in own:
+                add((t, {a: v}))
     # ill-typed values that are EQUAL to the documented default of the attribute (4.0 == 4): still not integers
     defaults = {'sequence_number': {'number': 0}, 'channel_prefix': {'channel': 0}, 'midi_port': {'port': 0}, 'set_tempo': {'tempo': 500000},
                 'smpte_offset': {'frame_rate': 24, 'hours': 0, 'minutes': 0, 'seconds': 0, 'frames': 0, 'sub_frames': 0},
@@ -304,7 +313,10 @@ def _is_f5(case, reason):
     except Exception:
         return False
     h = kw.get('hours')
-    others_ok = all(metas.in_domain(dict(metas.META['smpte_offset'][1])[k], v) for k, v in kw.items() if k != 'time')
+    doms = dict(metas.META['smpte_offset'][1])
+    if any(k not in doms for k in kw if k != 'time'):
+        return False
+    others_ok = all(metas.in_domain(doms[k], v) for k, v in kw.items() if k != 'time')
     return (isinstance(h, int) and 32 <= h <= 255 and others_ok and
             ('from_bytes(bytes())' in reason or 'from a track' in reason or 'differ from FF type vlq payload' in reason))
 
